@@ -32,6 +32,19 @@ struct Instance {
     bool ok() const { return desc > 0; }
 };
 
+// long-lived instances shared by many cases of one process (state carried between calls on one descriptor);
+// a failure on a pooled instance is saved with the window of preceding cases (multi-case replay file)
+struct Pool {
+    std::vector<std::unique_ptr<Instance>> v;
+    Instance *get(const Config &c) {
+        for (size_t i = 0; i < v.size(); i++) { const Config &x = v[i]->cfg; if (x.backend == c.backend && x.k == c.k && x.m == c.m && x.hd == c.hd && x.w == c.w && x.ct == c.ct) { std::rotate(v.begin() + i, v.begin() + i + 1, v.end()); return v.back().get(); } }
+        if (v.size() >= 6) v.erase(v.begin());
+        v.emplace_back(new Instance(c));
+        return v.back().get();
+    }
+};
+inline Pool &pool() { static Pool *p = new Pool; return *p; }
+
 struct Stripe {
     int rc = -1;
     uint64_t fraglen = 0;
@@ -183,11 +196,15 @@ inline size_t gen_length(const Config &g, size_t cap) {
     using namespace fw;
     size_t unit = (size_t)g.k * ref::word_bytes(g);
     size_t len;
-    switch (weighted({2, 5, 4, 1})) {
+    switch (weighted({2, 5, 4, 1, 2})) {
     case 0: len = (size_t)pick(0, 3); break;
     case 1: { size_t q = (size_t)pick(0, 40); int64_t d = pick(-1, 1); int64_t v = (int64_t)(q * unit) + d; len = v < 0 ? 0 : (size_t)v; break; }
     case 2: len = (size_t)pick(0, 4095); break;
-    default: len = (size_t)pick(0, (int64_t)cap); break;
+    case 3: len = (size_t)pick(0, (int64_t)cap); break;
+    default: {   // powers of two: of the whole object or of the per-fragment payload, +-1
+        int p = (int)pick(0, 20); int64_t d = pick(-1, 1);
+        int64_t v = coin() ? ((int64_t)1 << p) + d : (int64_t)g.k * ((int64_t)1 << std::min(p, 16)) + d;
+        len = v < 0 ? 0 : (size_t)v; break; }
     }
     return std::min(len, cap);
 }
